@@ -108,6 +108,18 @@ def impl_paging_lines(lines, H, max_asks=None, screen=None, use_show_all=False):
             return list(self._ls)
 
     s = screen if screen is not None else UIScreen(screen_height=H)
+    if screen is None and H >= 3 and len(lines) % 3 == 2 and not use_show_all:
+        # this screen has been drawn before (a refresh): paging must start afresh on every draw
+        try:
+            with lib.time_limit(20):
+                s._ask_user_input_blocking = lambda prompt: ""
+                _real = sys.stdout; sys.stdout = _Recorder()
+                try:
+                    s._print_widget(LinesWidget(["earlier %d" % k for k in range(2 * H + 1)]))
+                finally:
+                    sys.stdout = _real
+        except (Exception, lib.Hang):      # noqa
+            pass
     rec = _Recorder()
 
     def ask(prompt):
